@@ -211,7 +211,7 @@ def main():
         ],
         'checks': checks,
         'not_applicable': na,
-        'notes': 'All checks are static: they parse /repo/src/kyupy/*.py on every run and never import or execute kyupy. '
+        'notes': 'The checks parse /repo/src/kyupy/*.py on every run and never import kyupy. Besides the purely syntactic / abstract-interpretation rules, the rule groups named "evaluated" run fragments of the parsed code in an AST evaluator of their own (Engine M) on small stand-in inputs and compare with the stated contract - bounded evaluation, described with its limits in DESIGN.md 0.1. '
                  'exit 2 + ANALYSIS-ERROR means the analysis could not be carried out (anchor vanished / unmodelled construct), never a pass.',
     }
     with open(os.path.join(HERE, 'MANIFEST.json'), 'w') as f:
